@@ -931,6 +931,10 @@ func c17CheckVersionTable(ctx *vfCtx, c c17VTCase) {
 		cell("key-validity", impl.SignatureValidityCheck(2000, 1000), !tr.StrictValidity)
 		// inside the validity window: always fine
 		cell("key-validity-in-window", impl.SignatureValidityCheck(500, 1000), true)
+		// the boundary: valid_until_ts must be at least as large as origin_server_ts
+		cell("key-validity-at-valid-until", impl.SignatureValidityCheck(1000, 1000), true)
+		cell("key-validity-at-valid-until", impl.SignatureValidityCheck(999, 1000), true)
+		cell("key-validity-just-past-valid-until", impl.SignatureValidityCheck(1001, 1000), !tr.StrictValidity)
 		// strict rule: validity is capped at 7 days from now (margins: 30 / 60 days)
 		now := time.Now()
 		at, until := spec.AsTimestamp(now.Add(30*24*time.Hour)), spec.AsTimestamp(now.Add(60*24*time.Hour))
